@@ -17,6 +17,8 @@ import SqiProofs.GfX86Refines
 import SqiProofs.GfX86Inv
 import SqiGen.GfGcd
 import SqiProofs.FiatCheap
+import SqiProofs.FiatMul1
+import SqiProofs.FiatSqr1
 
 namespace SqiProps.C07
 open SqiModel.Gf SqiProofs.GfRef SqiProofs.GfMont SqiProofs.GfFp2
@@ -292,9 +294,10 @@ example : dom2 (fun a => a < lvl1.p) (⟨3, 4⟩ : Fp2 Nat) ∧
 `SqiGen.Fiat{1,3,5}` are the fiat functions of fp_p5248.c / fp_p65376.c / fp_p27500.c as instruction lists, re-extracted on
 every run by tools/translate/fiat.py (mul, square, add, sub, opp, to/from_montgomery, nonzero, selectznz, to/from_bytes,
 set_one; the translator also checks that fp_add/sub/mul/sqr/tomont/frommont/mont_setone call exactly these). `SqiModel.Fiat.run`
-is the interpreter.  Proved for ALL inputs by symbolic execution (`SqiProofs.FiatExec`) + `omega`: the level-1 `add` program is
+is the interpreter.  Proved for ALL inputs by symbolic execution (`SqiProofs.FiatExec`) + `omega`: the level-1 `mul` and `square`
+programs are `montMul 4 p 1` (one `montStep` invariant per round, `SqiProofs.FiatMul1/FiatSqr1`), the level-1 `add` program is
 `Ref.fp_add lvl1`; `selectznz` and `set_one` at the three levels.  NOT proved (tied three ways on every run instead — real fiat
-function / interpreter on the extracted program / generic `montMul` model, tools/props/c07.py "fiat-programs"): mul, square,
+function / interpreter on the extracted program / generic `montMul` model, tools/props/c07.py "fiat-programs"): mul, square at levels 3/5,
 to/from_montgomery at all levels, add at levels 3/5, sub, opp, nonzero, to/from_bytes (brute `omega` over the symbolic trace does
 not scale beyond ~17 instructions; a per-round invariant proof is the missing piece). -/
 
@@ -303,6 +306,23 @@ theorem fiat_add_lvl1 (a0 a1 a2 a3 b0 b1 b2 b3 : Nat) (ha0 : a0 < 2^64) (ha1 : a
     SqiModel.Fiat.evalBase SqiModel.Fiat.W (SqiModel.Fiat.run SqiGen.Fiat1.add [[a0,a1,a2,a3],[b0,b1,b2,b3]]) =
       Ref.fp_add lvl1 (a0 + 2^64*a1 + 2^128*a2 + 2^192*a3) (b0 + 2^64*b1 + 2^128*b2 + 2^192*b3) :=
   SqiProofs.FiatCheap.add_correct_1 a0 a1 a2 a3 b0 b1 b2 b3 ha0 ha1 ha2 ha3 hb0 hb1 hb2 hb3
+
+/-- **`fiat_p5248_mul` = generic word-by-word Montgomery multiplication**, for ALL 4-limb operands (not only reduced ones):
+    the program re-extracted from fp_p5248.c, run by the interpreter, returns `Ref.fp_mul lvl1 A B = montMul 4 p 1 A B`.
+    With `montMul_spec` this is the first end-to-end theorem from the fiat C text to `a·b·R⁻¹ mod p`. -/
+theorem fiat_mul_lvl1 (a0 a1 a2 a3 b0 b1 b2 b3 : Nat) (ha0 : a0 < 2^64) (ha1 : a1 < 2^64) (ha2 : a2 < 2^64) (ha3 : a3 < 2^64)
+    (hb0 : b0 < 2^64) (hb1 : b1 < 2^64) (hb2 : b2 < 2^64) (hb3 : b3 < 2^64) :
+    SqiModel.Fiat.evalBase SqiModel.Fiat.W (SqiModel.Fiat.run SqiGen.Fiat1.mul [[a0,a1,a2,a3],[b0,b1,b2,b3]]) =
+      Ref.fp_mul lvl1 (a0 + 2^64*a1 + 2^128*a2 + 2^192*a3) (b0 + 2^64*b1 + 2^128*b2 + 2^192*b3) := by
+  have h := SqiProofs.FiatMul1.mul_correct a0 a1 a2 a3 b0 b1 b2 b3 ha0 ha1 ha2 ha3 hb0 hb1 hb2 hb3
+  simpa [Ref.fp_mul, lvl1, Nat.mul_comm] using h
+
+/-- `fiat_p5248_square` likewise: `Ref.fp_sqr lvl1 A = montMul 4 p 1 A A` -/
+theorem fiat_square_lvl1 (a0 a1 a2 a3 : Nat) (ha0 : a0 < 2^64) (ha1 : a1 < 2^64) (ha2 : a2 < 2^64) (ha3 : a3 < 2^64) :
+    SqiModel.Fiat.evalBase SqiModel.Fiat.W (SqiModel.Fiat.run SqiGen.Fiat1.square [[a0,a1,a2,a3]]) =
+      Ref.fp_sqr lvl1 (a0 + 2^64*a1 + 2^128*a2 + 2^192*a3) := by
+  have h := SqiProofs.FiatSqr1.square_correct a0 a1 a2 a3 ha0 ha1 ha2 ha3
+  simpa [Ref.fp_sqr, lvl1, Nat.mul_comm] using h
 
 theorem fiat_set_one :
     SqiModel.Fiat.runLimbs SqiGen.Fiat1.set_one 4 [] = Ref.fp_set_one lvl1 ∧
